@@ -53,4 +53,10 @@ theorem src_fields_use_their_own_objects :
     Gen.crossInverseObjectsX = ["pca1", "preprocessor1", "whitener1"] ∧ Gen.crossInverseObjectsY = ["pca2", "preprocessor2", "whitener2"] := by
   decide
 
+/-- source obligation: `PCA.transform` is the bare projection `X · V` — no mean, scale or any other statistic of the data being
+transformed enters, which is what makes the transform a per-sample map -/
+theorem src_pca_transform_is_projection :
+    Gen.pcaTransformBody = ["transformed = xr.dot(X, self.V, dims=self.feature_name)", "transformed.name = X.name",
+      "return transformed.rename({'mode': self.feature_name})"] := by decide
+
 end C05
